@@ -1,11 +1,27 @@
-"""C16 (pooled-client part; work in progress)."""
+"""C16 - PooledClient (and, pending, single-server HashClient / RetryingClient) behave like Client.
+
+Forwarding contracts proved by symbolic execution with Python's call-binding rules against the *current*
+signature of Client.<m> (read from the AST): for every key-addressed method m and every argument pack Client.m
+accepts (all positional / optional ones by keyword / required only), PooledClient.m
+  - accepts the pack (no TypeError at binding),
+  - performs exactly one inner call, of the same method m, whose arguments bound against Client.m's signature equal
+    the caller's (with Client's own defaults for omitted ones),
+  - returns the inner result unchanged, or raises the inner exception itself,
+  - swallows a failure only with ignore_exc on a read.
+PooledClient._create_client passes every shared option (serde, timeouts, no_delay, socket_module, keep-alive, key prefix,
+default_noreply, allow_unicode_keys, encoding, tls_context) and builds inner clients with ignore_exc=False.
+"Same commands, same result in every server state" then follows from the same inner call + determinism of Client.m
+given the reply (server states enter only through the symbolic reply).
+"""
 from . import poolmodel as pm
 
-TRUSTED = []
-ASSUMPTIONS = []
+TRUSTED = ["call binding (pyvc.sym.bind_args)", "contextlib.contextmanager single-yield semantics", "pool contracts proved in C09"]
+ASSUMPTIONS = ["client_class is Client (no subclass overrides)"]
+NOT_COVERED = ["HashClient with one server (pooled or not): not yet mechanised", "RetryingClient: __getattr__ forwarding is proved in C17",
+               "non-key-addressed methods (stats, flush_all, quit, close, version, raw_command differ by design)"]
 BUDGET = {"quick": 30, "thorough": 120}
 FILTER_BY_PROPERTY = True
-REPLAY_UNDECIDED = True
+DEPENDS = ["C17"]
 
 
 def build(E, tier):
